@@ -1225,6 +1225,8 @@ def run(repo: Repo, rep):
     r1b_no_cache(repo, rep)
     from .c12 import r1_pairing  # rows i*n .. (i+1)*n-1 carry parameter row i UNCHANGED: attaching the repeated parameters must not cast or re-order their columns
     r1_pairing(repo, rep)
+    from .c10 import r5e_grid_counts_truncate  # a regular grid is only ever TOPPED UP to n: side counts whose product can exceed n return more rows than requested
+    r5e_grid_counts_truncate(repo, rep)
     r12_interval_boundary_grid(repo, rep)
     r13_operation_grids(repo, rep)
     r14_data_sampler_length(repo, rep)
